@@ -44,6 +44,12 @@ type C04Scenario struct {
 
 const c04Sentinels = 3
 
+// special values in C04File.LineLens (scenarios with a small MaxLineLength)
+const (
+	c04Empty    = -1
+	c04ExactMLL = -2
+)
+
 func (sc *C04Scenario) keep(n int) bool {
 	if !sc.Regex {
 		return true
@@ -59,7 +65,18 @@ func (sc *C04Scenario) line(fi, n, plen int) string {
 		m = "K"
 	}
 	var b strings.Builder
+	if plen == c04Empty {
+		return "" // a truly empty line (a newline alone)
+	}
 	fmt.Fprintf(&b, "T%d:%d:%s:", fi, n, m)
+	if plen == c04ExactMLL {
+		// padded to exactly MaxLineLength bytes: the reader's split logic fires
+		// with nothing left over
+		for b.Len() < sc.Cfg.MLL {
+			b.WriteByte('x')
+		}
+		return b.String()
+	}
 	for b.Len() < len(fmt.Sprintf("T%d:%d:%s:", fi, n, m))+plen {
 		b.WriteString(c04Alphabet[(b.Len()*7+n*3+fi)%len(c04Alphabet)])
 	}
@@ -84,6 +101,12 @@ func c04Gen(r *Rand, tier string, i int) Scenario {
 	sc.Regex = r.Bool(0.4)
 	sc.KeepEvery = PickOf(r, 1, 2, 3)
 	sc.Cfg.MLL = 1024 * 1024
+	// 15 %: MaxLineLength 64 with lines of exactly that length and truly empty
+	// lines (every line stays within the limit, so no record is a fragment)
+	smallMLL := r.Bool(0.15)
+	if smallMLL {
+		sc.Cfg.MLL = 64
+	}
 	sc.StartMs = PickOf(r, 0, 1, 20, 150, 150, 400)
 	nf := PickOf(r, 1, 1, 2)
 	for f := 0; f < nf; f++ {
@@ -95,13 +118,19 @@ func c04Gen(r *Rand, tier string, i int) Scenario {
 		total := 0
 		for k := 0; k < nl; k++ {
 			l := PickOf(r, 0, 1, 5, 20, 20, 60, 200)
+			if smallMLL {
+				l = PickOf(r, 0, 1, 5, 5, c04Empty, c04Empty, c04ExactMLL, c04ExactMLL)
+			}
 			cf.LineLens = append(cf.LineLens, l)
 		}
 		if r.Bool(0.3) {
 			cf.TrailingPart = r.Range(1, 30)
+			if smallMLL {
+				cf.TrailingPart = r.Range(1, 8)
+			}
 		}
 		// build the stream length to chunk it
-		tmp := &C04Scenario{Regex: sc.Regex, KeepEvery: sc.KeepEvery, Files: append(append([]C04File(nil), sc.Files...), cf)}
+		tmp := &C04Scenario{Regex: sc.Regex, KeepEvery: sc.KeepEvery, Cfg: sc.Cfg, Files: append(append([]C04File(nil), sc.Files...), cf)}
 		for _, ln := range tmp.appendLines(f) {
 			total += len(ln) + 1
 		}
@@ -397,6 +426,9 @@ func c04Run(t *testing.T, s Scenario, src verifsim.DecisionSource, keep bool) *R
 		res.Class, res.Message = "client-panic", proc.Panic
 		return res
 	}
+	if dp := os.Getenv("VERIF_DUMP_STDOUT"); dp != "" {
+		os.WriteFile(dp, stdout, 0644)
+	}
 	cls, msg, drops := c04Oracle(sc, truth, stdout)
 	res.Class, res.Message = cls, msg
 	res.Info["drops"] = drops
@@ -450,12 +482,42 @@ func c04Oracle(sc *C04Scenario, truth [][]c04Line, stdout []byte) (string, strin
 		// expected lines are those matching the filter
 		pos := 0
 		lastCount := 0
+		// scenarios with a small MaxLineLength append truly empty lines and lines
+		// of exactly MaxLineLength bytes; the reader may insert a newline after a
+		// run of MaxLineLength bytes (C01 permits it), which shows up as one extra
+		// empty record per such line - also for a line that was itself dropped
+		smallMLL := sc.Cfg.MLL > 0 && sc.Cfg.MLL < 1024
+		pendingEmpties := 0
+		lastMatched := -1
+		emptiesBetween := func(from, to int) (genuine, exact int) {
+			for k := from; k < to && k < len(tl); k++ {
+				if k < 0 {
+					continue
+				}
+				if tl[k].text == "" && tl[k].class == 2 && !sc.Regex {
+					genuine++
+				}
+				if tl[k].text == "" && tl[k].class == 1 {
+					exact++ // straddles the start of the follow: may or may not arrive
+				}
+				if len(tl[k].text) > 0 && len(tl[k].text)%sc.Cfg.MLL == 0 {
+					exact++
+				}
+			}
+			return
+		}
 		for gi, g := range got {
 			if g.count <= lastCount {
 				return "count-not-increasing", fmt.Sprintf("file %d: record %d carries running number %d after %d", fi, gi+1, g.count, lastCount), drops
 			}
 			lastCount = g.count
 			found := -1
+			if g.content == "" && smallMLL {
+				// empty records are indistinguishable from each other: they are
+				// counted and judged when the next tagged line arrives (below)
+				pendingEmpties++
+				continue
+			}
 			for k := pos; k < len(tl); k++ {
 				if tl[k].text == g.content {
 					found = k
@@ -485,7 +547,7 @@ func c04Oracle(sc *C04Scenario, truth [][]c04Line, stdout []byte) (string, strin
 			// skipped must-lines form a gap
 			gap := 0
 			for k := pos; k < found; k++ {
-				if tl[k].class == 2 && (!sc.Regex || strings.Contains(tl[k].text, ":K:")) {
+				if tl[k].class == 2 && (!sc.Regex || strings.Contains(tl[k].text, ":K:")) && tl[k].text != "" {
 					gap++
 				}
 			}
@@ -499,12 +561,31 @@ func c04Oracle(sc *C04Scenario, truth [][]c04Line, stdout []byte) (string, strin
 				}
 				drops += gap
 			}
+			if smallMLL {
+				ge, ex := emptiesBetween(pos, found)
+				_, exPrev := emptiesBetween(lastMatched, lastMatched+1)
+				if gap == 0 && pendingEmpties < ge {
+					miss := ge - pendingEmpties
+					if sessionMusts < 100 {
+						return "line-lost", fmt.Sprintf("file %d: %d appended empty line(s) before %q never delivered although fewer than 100 lines were selected in the whole session", fi, miss, trunc(g.content, 60)), drops
+					}
+					if g.perc >= 100 {
+						return "silent-drop", fmt.Sprintf("file %d: %d appended empty line(s) before %q were dropped but the next delivered line reports %d%% transmitted", fi, miss, trunc(g.content, 60), g.perc), drops
+					}
+					drops += miss
+				}
+				if pendingEmpties > ge+ex+exPrev {
+					return "duplicate-or-reordered", fmt.Sprintf("file %d: %d empty records before %q, but only %d empty lines were appended there (plus %d lines of exactly MaxLineLength)", fi, pendingEmpties, trunc(g.content, 60), ge, ex+exPrev), drops
+				}
+				pendingEmpties = 0
+				lastMatched = found
+			}
 			pos = found + 1
 		}
 		// everything must-deliver after pos was not delivered
 		rest := 0
 		for k := pos; k < len(tl); k++ {
-			if tl[k].class == 2 && (!sc.Regex || strings.Contains(tl[k].text, ":K:")) {
+			if tl[k].class == 2 && (!sc.Regex || strings.Contains(tl[k].text, ":K:")) && tl[k].text != "" {
 				rest++
 			}
 		}
